@@ -2,10 +2,8 @@
 Load "coq/props/Hdr".
 From Coq Require Import Permutation.
 From PM Require Import Cs Cs2 Cs4 Cs5 C04.
-Lemma src_rt : rt_ok cfg. Proof. apply conds_rt_ok. vm_compute. reflexivity. Qed.
-Lemma src_tbl : tbl_ok cfg. Proof. apply conds_tbl_ok. vm_compute. reflexivity. Qed.
-Lemma src_cfg_ok : cfg_ok cfg. Proof. exact (rt_cfg _ src_rt). Qed.
-Ltac sc := sidecond_with src_rt src_tbl.
+Lemma src_rt : rt_ok cfg. Proof. prove_rt. Qed.
+Lemma src_cfg_ok : cfg_ok cfg. Proof. sc. Qed.
 (* every hash-map iteration order gives the same text *)
 Theorem C12_order_independent : forall m m', NoDup (map fst m) -> Permutation m m' -> cs_to_text m' = cs_to_text m.
 Proof. apply cs_to_text_perm_invariant. Qed.
